@@ -268,6 +268,9 @@ def _str_safe(arg: ast.AST, handler_vars) -> bool:
     return False
 
 
+CLOCK_FUNCS = {"time.monotonic", "time.time", "time.perf_counter", "time.monotonic_ns", "time.time_ns", "time.perf_counter_ns", "anyio.current_time", "monotonic", "perf_counter"}
+
+
 def is_benign_call(call: ast.Call, handler_vars=()) -> bool:
     """Calls that the default fallibility model treats as non-raising: logging,
     traceback formatting, total builtins, 3-argument getattr, str()/repr() of a caught exception."""
@@ -284,6 +287,8 @@ def is_benign_call(call: ast.Call, handler_vars=()) -> bool:
         return True
     if name in PURE_FUNCS:
         return True
+    if name in CLOCK_FUNCS and not call.args and not call.keywords:
+        return True  # reading a clock does not raise
     if name == "getattr" and len(call.args) == 3:
         return True
     f = call.func
@@ -526,6 +531,17 @@ class PathAnalysis(flow.Analysis):
             state = state.add_event("caught:" + "/".join(self.handler_names(handler)))
         return self.simple(state, handler)
 
+    def scope_outcome(self, state, with_node, fired: bool):
+        for it in with_node.items:
+            v = it.optional_vars
+            if isinstance(v, ast.Name):
+                t = state.term(v.id) or v.id
+                for attr in ("cancelled_caught", "cancel_called"):
+                    lit = f"{t}.{attr}"
+                    state = replace(state, lits=frozenset(l for l in state.lits if l not in (lit, "not " + lit)))
+                    state = state.add_lit(lit if fired else "not " + lit)
+        return state
+
     def leave_handler(self, state, handler):
         # `as e` is unbound when the handler ends: nothing can test it any more, so what is known about the exception
         # object is dropped unless another variable still refers to it (`failure = e`).  The binding itself is kept as a
@@ -643,6 +659,12 @@ class PathAnalysis(flow.Analysis):
 _CLOSED_CACHE: Dict[str, Optional[bool]] = {}
 
 
+def _plain_ref(n: ast.AST) -> bool:
+    while isinstance(n, ast.Attribute):
+        n = n.value
+    return isinstance(n, ast.Name) and SEP not in n.id
+
+
 def _closed_truth(lit: str) -> Optional[bool]:
     """Truth value of a literal that mentions constants only (`None is not None`, `not False`, `0 == 1`), else None."""
     if lit in _CLOSED_CACHE:
@@ -669,6 +691,8 @@ def _closed_truth(lit: str) -> Optional[bool]:
         if isinstance(x, ast.BoolOp):
             vals = [ev(v) for v in x.values]
             return all(vals) if isinstance(x.op, ast.And) else any(vals)
+        if isinstance(x, ast.Compare) and len(x.ops) == 1 and isinstance(x.ops[0], (ast.Is, ast.IsNot)) and _plain_ref(x.left) and ast.dump(x.left) == ast.dump(x.comparators[0]):
+            return isinstance(x.ops[0], ast.Is)  # `s is s` for a plain name/attribute chain (a sentinel compared with itself)
         if isinstance(x, ast.Compare) and len(x.ops) == 1:
             a, b = ev(x.left), ev(x.comparators[0])
             op = x.ops[0]
